@@ -10,6 +10,7 @@ mod runner;
 mod gen;
 mod shadow;
 mod prog;
+mod zoo;
 mod props;
 
 use runner::*;
